@@ -2707,6 +2707,8 @@ XPathProcessorImpl::LocationPathPattern()
 
     m_expression->appendOpCode(XPathExpression::eOP_LOCATIONPATHPATTERN);
 
+    bool    fNeedsStep = false;
+
     if(lookahead(XalanUnicode::charLeftParenthesis, 1) == true &&
                 (tokenIs(s_functionIDString) == true ||
                  tokenIs(s_functionKeyString) == true))
@@ -2744,6 +2746,8 @@ XPathProcessorImpl::LocationPathPattern()
             m_expression->appendOpCode(XPathExpression::eNODETYPE_NODE);
 
             nextToken();
+
+            fNeedsStep = true;
         }
         else
         {
@@ -2756,6 +2760,14 @@ XPathProcessorImpl::LocationPathPattern()
         m_expression->updateOpCodeLength(newOpPos);
 
         nextToken();
+    }
+
+    // A pattern cannot end with '//'.  The step that stands for it is not
+    // one that getTargetData() knows as the last step of a pattern.
+    if (fNeedsStep == true &&
+        (m_token.empty() == true || tokenIs(XalanUnicode::charVerticalLine) == true))
+    {
+        error(XalanMessages::ExpectedNodeTest);
     }
 
     if(m_token.empty() == false)
